@@ -205,8 +205,7 @@ func runHistory(h *simrt.History, emit func(*simrt.CallResult)) {
 			w.PutLink(st.File, st.Link)
 			res.Kind = "ok"
 		case "hardlink":
-			w.Del(st.File)
-			w.PutHardLink(st.File, st.Link)
+			w.PutHardLink(st.File, st.Link) // (nothing happens unless Link is a regular file)
 			res.Kind = "ok"
 		case "move":
 			w.Move(st.From, st.To)
